@@ -1,5 +1,6 @@
 import SlugModel.Lemmas.TrEq_normalizeSubpath
 import SlugModel.Lemmas.TrEq_splitSubPath
+import SlugModel.Lemmas.TrEq_validSubPath
 /-!
 # C07 (tie by translation)
 
@@ -19,5 +20,9 @@ theorem C07_tie_normalizeSubpath (g : Str) :
 /-- **C07_tie_splitSubPath.** The model's `splitSubPath` is the translated `splitSubPath` (sourceaddrs/subpath.go). -/
 theorem C07_tie_splitSubPath (s : Str) : Gen.splitSubPath s = splitSubPath s :=
   gen_splitSubPath s
+
+/-- **C07_tie_validSubPath.** The model's `validSubPath` is the translated `ValidSubPath` (sourceaddrs/subpath.go). -/
+theorem C07_tie_validSubPath (s : Str) : Gen.validSubPath s = validSubPath s :=
+  gen_validSubPath s
 
 end Slug
